@@ -443,6 +443,8 @@ def str_to_dict(s, value=_sentinel):
     >>> str_to_dict("output.changed", True)
     {'output': {'changed': True}}
     """
+    if not isinstance(s, str):
+        raise LenaTypeError("s must be a string, {} given".format(s))
     if s == "":
         if value is _sentinel:
             return {}
@@ -484,6 +486,8 @@ def str_to_list(s):
     Contrarily to :func:`str_to_dict`, this function allows
     an arbitrary number of dots in *s* (or none).
     """
+    if not isinstance(s, str):
+        raise LenaTypeError("s must be a string, {} given".format(s))
     if s == "":
         return []
     # s can't be a list. This function is not used as a general
